@@ -7,7 +7,7 @@ fn main() {
         eprintln!("usage: daacmc check <ID> quick|thorough | replay <path>");
         std::process::exit(2);
     }
-    util::install_guards(60);
+    util::install_guards(30);
     match args[1].as_str() {
         "check" => {
             let prop = args[2].as_str();
@@ -43,6 +43,7 @@ fn main() {
                 "lazy" => harness::props3::replay_lazy(&case),
                 "orders" => harness::props3::replay_orders(&case),
                 "merges" => harness::props3::replay_merges(&case),
+                "scale" => harness::scale::replay_scale(&case),
                 "cli" => harness::e6::replay(&case),
                 "bisim" => harness::props2::replay_bisim(&case),
                 "roundtrip" => harness::props2::replay_roundtrip(&case),
